@@ -35,6 +35,7 @@ ASSUMPTIONS = [
 ]
 
 INC_CACHE = {}
+RENDER_VERSION = '1'
 
 
 def result_type(kind):
@@ -377,6 +378,8 @@ def outcome_fields(line):
 
 def replay_cex(cex, native):
     """True = the real crate (dev or release build) exhibits what the property forbids."""
+    if cex.get('glue'):
+        return replay_glue(cex, native)
     reqs = [(e, bytes.fromhex(h)) for e, h in cex['runs']]
     verdicts = []
     notes = []
@@ -408,6 +411,30 @@ def views_wrong(line, inp):
     return not (proto == second and astr == rest and disp == hdr and m.group(4) == 'true')
 
 
+def replay_glue(cex, native):
+    """A glue-table violation is stated over abstract parser results; it is confirmed natively by running
+    the three real entry points on a corpus of inputs that realises every reachable (v2 class, v1 class)
+    pair and checking the same decision table on the real results."""
+    corpus = [b'', b'\r', b'\r\n\r\n\x00\r\nQUIT\n', b'\r\n\r\n\x00\r\nQUIT\n\x21\x11\x00\x0c' + bytes(12), b'\r\n\r\n\x00\r\nQUIT\n\x21\x11\x00\x0c' + bytes(5),
+              b'\r\n\r\n\x00\r\nQUIT\n\x31\x11\x00\x0c' + bytes(12), b'PROXY UNKNOWN\r\n', b'PROXY TCP4 1.2.3.4 5.6.7.8 1 2\r\n', b'PROXY TCP4 1.2.3.4',
+              b'PROX', b'PROXY', b'HELLO\r\n', b'PROXY TCP9 x\r\n', b'P', b'\x00', b'PROXY UNKNOWN \xff\r\n', b'PROXY TCP4 1.2.3.4 5.6.7.8 1 2\rX']
+    bad = []
+    for prof in ('dev', 'release'):
+        a = native([('auto', c) for c in corpus], prof)
+        v2 = native([('v2', c) for c in corpus], prof)
+        v1 = native([('v1_bytes', c) for c in corpus], prof)
+        for c, la, l2, l1 in zip(corpus, a, v2, v1):
+            f2, f1 = outcome_fields(l2), outcome_fields(l1)
+            if f2['ok'] or f2['inc']:
+                want = 'V2 ' + l2 + ' complete=' + ('false' if f2['inc'] else 'true')
+            else:
+                want = 'V1 ' + l1 + ' complete=' + ('false' if f1['inc'] else 'true')
+            if la != want:
+                bad.append('%s: %r -> `%s`, expected `%s`' % (prof, c, la, want))
+    cex['native'] = bad[:6]
+    return (True, '; '.join(bad[:3])) if bad else (False, 'the real entry points follow the decision table on the %d-input corpus' % len(corpus))
+
+
 def violated(cex, o):
     k = cex['violated_if']
     if k == 'panics':
@@ -435,6 +462,18 @@ def violated(cex, o):
         if any(x['panic'] for x in o):
             return True
         return a[0] != a[1] and not (a[0][0] is False and a[1][0] is False and cex.get('both_errors_ok'))
+    if k.startswith('builder_'):
+        raw = o[0]['raw']
+        if 'legit=false' in raw:
+            return True
+        if k == 'builder_c09' and 'c09=false' in raw:
+            return True
+        if k == 'builder_c10' and 'c10=false' in raw:
+            return True
+        return False
+    if k == 'fmt_roundtrip':
+        m = re.search(r'len=(\d+) roundtrip=(true|false)', o[0]['raw'])
+        return (not m) or m.group(2) == 'false' or int(m.group(1)) > 107
     if k == 'views_wrong':
         return views_wrong(o[0]['raw'], bytes.fromhex(cex['runs'][0][1]))
     if k == 'not_all_errors':
@@ -561,8 +600,8 @@ SPECS['C05'] = {'kinds': ['str', 'bytes'], 'lmax': {'quick': 64, 'thorough': 112
                 'obligations': [('c05_prefix_incomplete', ['str', 'bytes']), ('c05_flags_consistent', ['str', 'bytes'])]}
 SPECS['C04'] = {'kinds': ['str', 'bytes'], 'lmax': {'quick': 64, 'thorough': 112},
                 'obligations': [('c04_trailer_independent', ['str', 'bytes']), ('c04_header_is_line', ['str', 'bytes'])]}
-SPECS['C16'] = {'kinds': V1_4, 'lmax': {'quick': 64, 'thorough': 112},
-                'obligations': [('c16_entries_agree', ['str'])]}
+SPECS['C16'] = {'kinds': ['str', 'bytes'], 'lmax': {'quick': 112, 'thorough': 128}, 'modular': 'c16_modular',
+                'obligations': [], 'thorough_extra': {'kinds': V1_4, 'lmax': 40, 'obligations': [('c16_entries_agree', ['str'])]}}
 
 CHUNK = 45
 
@@ -888,8 +927,12 @@ def c16_modular(prog, lmax):
 # ------------------------------------------------------------------ C15 (views) and the views part of C03
 SPECS['C15'] = {'kinds': ['str_views'], 'lmax': {'quick': 112, 'thorough': 128},
                 'obligations': [('c15_views', ['str_views'])]}
-SPECS['C03']['kinds'] = ['str', 'bytes', 'fromstr_addresses', 'fromstr_header', 'str_views']
-SPECS['C03']['obligations'] = [('c03_nopanic', V1_4 + ['str_views'])]
+# quick: text entry with all views + byte entry; thorough: + both FromStr impls (they only add `.addresses` / `.to_owned()`)
+SPECS['C03']['kinds'] = ['str_views', 'bytes']
+SPECS['C03']['obligations'] = [('c03_nopanic', ['str_views', 'bytes'])]
+SPECS['C03']['thorough_extra'] = {'kinds': ['fromstr_addresses', 'fromstr_header'], 'lmax': 112,
+                                  'obligations': [('c03_nopanic', ['fromstr_addresses', 'fromstr_header'])]}
+SPECS['C03']['modular'] = 'c03_glue_nopanic'
 ENTRY_OF['str_views'] = 'v1_views'
 
 
@@ -998,3 +1041,344 @@ def ob_c12_blame(W, kind, idx, params):
                       lambda m, want=want, name=name: cex_single(ctx, kind, m, 'not_error', 'corrupted %s is not rejected with a terminal %s' % (name, '/'.join(want)), want_err=want),
                       realize=realizable(ctx, p) + oracle_realizable(ctx, fields), roles=roles_for(W, ctx, orc), oracle_defs=orc.defs)
     return out
+
+
+# ------------------------------------------------------------------ validation tasks (3.4), run in the pool
+def ob_val_witness(W, kind, idx, params):
+    """a realisable witness input of path idx and the outcome the summary predicts for it"""
+    import wstate
+    ctx, paths = wstate.w_summary(kind)
+    p = paths[idx]
+    s = new_solver(ctx)
+    for c in p.pc:
+        s.add(c)
+    s.push()
+    for c in realizable(ctx, p):
+        s.add(c)
+    r = s.check()
+    if r != z3.sat:
+        s.pop()
+        r2 = s.check()
+        if r2 != z3.sat:
+            return [{'label': 'val_witness', 'status': 'error', 'detail': 'path %d of %s is not satisfiable on replay (%s)' % (idx, kind, r2)}]
+        return [{'label': 'val_witness', 'status': 'skip', 'detail': 'feasible only with address texts outside the dictionary'}]
+    m = s.model()
+    return [{'label': 'val_witness', 'status': 'ok', 'witness': v1sum.model_bytes(m, ctx).hex(), 'want': render(p, kind, m), 'outcome': p.label()}]
+
+
+def ob_val_literal(W, kind, idx, params):
+    """execute the MIR on a concrete literal (input fixed by axioms: exactly one feasible path) and render the outcome"""
+    import wstate
+    ctx, paths = wstate.w_summary(kind)
+    prog = W['prog']
+    lit = bytes.fromhex(params['lit'])
+    fixed = list(ctx.axioms) + [ctx.L == len(lit)] + [ctx.S(i) == b for i, b in enumerate(lit)] + [dictionary_axioms(ctx, lit)]
+    ex = v1sum.new_exec(prog, [ctx], ctx.lmax)
+    ex.suffix = ctx.suffix
+    got = explore(ex, v1sum.runner(prog, kind, ctx), base_axioms=fixed)
+    if len(got) != 1:
+        return [{'label': 'val_literal', 'status': 'error', 'detail': 'literal %r drives %d paths of entry %s (expected exactly 1)' % (lit, len(got), kind)}]
+    sc, items_, outc, notes = got[0]
+    p1 = v1sum.Path(sc, items_, outc, notes, -1)
+    annotate(prog, kind, [p1])
+    s = z3.Solver()
+    s.set('arith.solver', 2)
+    for a_ in fixed:
+        s.add(a_)
+    for c in p1.pc:
+        s.add(c)
+    if s.check() != z3.sat:
+        return [{'label': 'val_literal', 'status': 'error', 'detail': 'literal %r: path condition not satisfiable' % (lit,)}]
+    return [{'label': 'val_literal', 'status': 'ok', 'witness': lit.hex(), 'want': render(p1, kind, s.model())}]
+
+
+# ------------------------------------------------------------------ C06: auto-detection glue
+SPECS['C06'] = {'kinds': ['bytes'], 'lmax': {'quick': 112, 'thorough': 128}, 'modular': 'c06_glue',
+                'obligations': [('c06_v1_ok_starts_with_P', ['bytes'])]}
+
+V2_INC = {'Incomplete', 'Partial'}
+V1_INC = {'Partial', 'MissingPrefix', 'MissingProtocol', 'MissingSourceAddress', 'MissingDestinationAddress',
+          'MissingSourcePort', 'MissingDestinationPort', 'MissingNewLine'}
+
+
+def c06_glue(prog, lmax):
+    """HeaderResult::parse with the two dedicated parsers replaced by *arbitrary* results of their types
+    (every variant, opaque payloads): the decision table of C06 must hold for every pair (r2, r1)."""
+    recs = []
+    parse = [n for (tr, ty, m, n) in prog.impl_index if tr is None and m == 'parse' and ty.startswith('HeaderResult')]
+    if len(parse) != 1:
+        raise Unsupported('HeaderResult::parse not found')
+    v2_variants = sorted(prog.enums['v2::error::ParseError'].items(), key=lambda kv: kv[1])
+    v1_variants = sorted(prog.enums['v1::error::ParseError'].items(), key=lambda kv: kv[1])
+    ctx = models.InputCtx(8)
+    inp = ctx.input_str(False)
+
+    def stub(ex, func, argv, frame):
+        if re.match(r"^<v2::model::Header<'_> as std::convert::TryFrom<&\[u8\]>>::try_from", func):
+            ex.calls.append(('v2', argv[0]))
+            k = ex.choose(1 + len(v2_variants))
+            if k == 0:
+                r = models.Ok(Opaque('H2'))
+            else:
+                name = v2_variants[k - 1][0]
+                r = models.Err(Enum('v2::error::ParseError', name, [Opaque('payload'), Opaque('payload')]))
+            ex.r2 = r
+            return True, r
+        if re.match(r"^<v1::model::Header<'_> as std::convert::TryFrom<&\[u8\]>>::try_from", func):
+            ex.calls.append(('v1', argv[0]))
+            k = ex.choose(2 + len(v1_variants))
+            if k == 0:
+                r = models.Ok(Opaque('H1'))
+            elif k == 1:
+                r = models.Err(Enum('v1::error::BinaryParseError', 'InvalidUtf8', [Opaque('payload')]))
+            else:
+                name = v1_variants[k - 2][0]
+                r = models.Err(Enum('v1::error::BinaryParseError', 'Parse', [Enum('v1::error::ParseError', name, [Opaque('payload')])]))
+            ex.r1 = r
+            return True, r
+        return False, None
+
+    ex = v1sum.new_exec(prog, [ctx], 8)
+    ex.suffix = ''
+    ex.hooks = [stub]
+
+    def run(e):
+        e.calls = []
+        e.r1 = None
+        e.r2 = None
+        r = e.call_fn(parse[0], [inp], {})
+        inc = models.dispatch(e, '<HeaderResult<\'_> as PartialResult>::is_incomplete', [Ref(Cell(r))], {'generics': {}})
+        comp = models.dispatch(e, '<HeaderResult<\'_> as PartialResult>::is_complete', [Ref(Cell(r))], {'generics': {}})
+        e.notes.append(('glue', r, inc, comp, e.r2, e.r1, list(e.calls)))
+        return r
+    res = explore(ex, run, base_axioms=ctx.axioms)
+    t0 = time.time()
+    n = 0
+    for sc, items, outc, notes in res:
+        n += 1
+        rec = {'label': 'c06_glue:path%d' % n, 'task': ['c06_glue', 'auto', n], 'solver_s': 0.0, 'status': 'unsat'}
+        why = None
+        if outc[0] != 'ret':
+            why = 'panic: %s' % outc[1]
+        else:
+            _, r, inc, comp, r2, r1, calls = [x for x in notes if x[0] == 'glue'][0]
+            # every dedicated parser is handed the whole, unchanged input
+            if any(not (c[1] is inp or (isinstance(c[1], Str) and c[1].buf is inp.buf and c[1].start is inp.start and c[1].end is inp.end)) for c in calls):
+                why = 'a dedicated parser is called on something other than the input'
+            v2ok = r2.variant == 'Ok'
+            v2inc = (not v2ok) and r2.fields[0].variant in V2_INC
+            if v2ok or v2inc:
+                want_tag, want_val = 'V2', r2
+                want_inc = v2inc
+                if r1 is not None and False:
+                    pass
+            else:
+                if r1 is None:
+                    why = why or 'the text parser was not consulted although the v2 error is terminal'
+                want_tag, want_val = 'V1', r1
+                e1 = r1.fields[0] if r1 is not None and r1.variant == 'Err' else None
+                want_inc = bool(e1 is not None and e1.variant == 'Parse' and e1.fields[0].variant in V1_INC)
+            if why is None:
+                if not (isinstance(r, Enum) and r.variant == want_tag and r.fields[0] is want_val):
+                    why = 'result is not %s(<that parser\'s result, unchanged>)' % want_tag
+                elif inc is not want_inc or comp is not (not want_inc):
+                    why = 'is_incomplete=%s is_complete=%s, expected incomplete=%s' % (inc, comp, want_inc)
+        if why:
+            rec['status'] = 'sat'
+            desc = 'v2 result %r, v1 result %r: %s' % (r2 if outc[0] == 'ret' else None, r1 if outc[0] == 'ret' else None, why)
+            rec['cex'] = {'runs': [], 'violated_if': 'glue_table', 'summary': desc, 'glue': True}
+        recs.append(rec)
+    return len(res), 0, recs
+
+
+def c03_glue_nopanic(prog, lmax):
+    """C03 for the auto-detecting entry point and the PartialResult impls: HeaderResult::parse, is_incomplete
+    and is_complete executed on every pair of dedicated-parser results (the parsers themselves are covered by
+    their own obligations): no path panics."""
+    n, _, recs = c06_glue(prog, lmax)
+    out = []
+    for r in recs:
+        bad = r['status'] != 'unsat' and 'panic' in (r.get('cex') or {}).get('summary', '')
+        out.append({'label': r['label'].replace('c06_glue', 'c03_glue_nopanic'), 'task': ['c03_glue_nopanic', 'auto', r['task'][2]], 'solver_s': 0.0,
+                    'status': 'sat' if bad else 'unsat', 'cex': r.get('cex') if bad else None})
+    return n, 0, out
+
+
+def ob_c06_v1_ok_starts_with_P(W, kind, idx, params):
+    """C06 "never both": whatever the v1 parser accepts starts with 'P' (and whatever the v2 parser accepts
+    starts with 0x0D - Engine K), so no input is accepted by both."""
+    import wstate
+    ctx, paths = wstate.w_summary(kind)
+    p = paths[idx]
+    if p.kind() != 'Ok':
+        return []
+    return decide(ctx, p.pc, z3.Or(ctx.L < 1, ctx.S(0) != 80), 'c06_v1_ok_starts_with_P:%s' % p.label(),
+                  lambda m: cex_single(ctx, kind, m, 'accepted', 'v1 accepts an input that does not start with P'), realize=realizable(ctx, p))
+
+
+# ------------------------------------------------------------------ C08: formatting produces canonical lines that parse back
+SPECS['C08'] = {'kinds': V1_4, 'lmax': {'quick': 112, 'thorough': 128}, 'modular': 'c08_prepare',
+                'obligations': [('c08_roundtrip', V1_4)]}
+_C08 = {}
+
+
+def c08_pieces(prog):
+    """execute <v1::Addresses as Display>::fmt on a symbolic value of each variant -> formatter pieces"""
+    key = id(prog)
+    if key in _C08:
+        return _C08[key]
+    disp = [n for (tr, ty, m, n) in prog.impl_index if tr and tr.endswith('Display') and m == 'fmt' and ty == 'Addresses' and 'src/v1/' in n]
+    if len(disp) != 1:
+        raise Unsupported('Display for v1::Addresses not found')
+    out = {}
+    for variant in ('Unknown', 'Tcp4', 'Tcp6'):
+        ex = v1sum.new_exec(prog, [], 0)
+        ex.begin([], replay_only=True)
+        if variant == 'Unknown':
+            val = Enum('v1::model::Addresses', 'Unknown', [])
+            sym = {}
+        else:
+            fam = 4 if variant == 'Tcp4' else 6
+            sym = {'fam': fam, 'sa': z3.Int('c08_sa%d' % fam), 'da': z3.Int('c08_da%d' % fam), 'sp': z3.Int('c08_sp%d' % fam), 'dp': z3.Int('c08_dp%d' % fam)}
+            ip = Struct('ip::IPv%d' % fam, {0: Opaque('ip', fam=fam, val=sym['sa'], role='source_address'), 'source_address': None,
+                                             1: sym['sp'], 'source_port': None,
+                                             2: Opaque('ip', fam=fam, val=sym['da'], role='destination_address'), 'destination_address': None,
+                                             3: sym['dp'], 'destination_port': None})
+            # field order of the struct as declared in src/ip.rs (read from the source, so that a reordering is followed)
+            src = prog.src('src/ip.rs')
+            mm = re.search(r'pub struct IPv%d \{(.*?)\}' % fam, src, re.S)
+            order = re.findall(r'pub (\w+):', mm.group(1))
+            vals = {'source_address': ip.fields[0], 'source_port': sym['sp'], 'destination_address': ip.fields[2], 'destination_port': sym['dp']}
+            ip.fields = {i: vals[n] for i, n in enumerate(order)}
+            ip.names = {n: i for i, n in enumerate(order)}
+            val = Enum('v1::model::Addresses', variant, [ip])
+        f = Opaque('Formatter', pieces=[])
+        r = ex.call_fn(disp[0], [Ref(Cell(val)), Ref(Cell(f))], {})
+        if ex.pc:
+            raise Unsupported('Display::fmt branches on symbolic data')
+        out[variant] = (sym, list(f.pieces), r)
+    _C08[key] = out
+    return out
+
+
+def c08_prepare(prog, lmax):
+    """modular part of C08: the template of Display for Addresses is decoded from the MIR (one run per variant)"""
+    pcs = c08_pieces(prog)
+    recs = []
+    for variant, (sym, pieces, r) in pcs.items():
+        ok = isinstance(r, Enum) and r.variant == 'Ok' and len(pieces) >= 1
+        recs.append({'label': 'c08_template:%s' % variant, 'task': ['c08_template', 'display', variant], 'solver_s': 0.0,
+                     'status': 'unsat' if ok else 'unknown', 'detail': 'pieces: %r' % (pieces,)})
+    return len(pcs), 0, recs
+
+
+def c08_formatted(ctx, orc, variant, sym, pieces):
+    """formula: the input (S, L) is the text that the decoded template produces for the symbolic value"""
+    cs = []
+    off = 0
+    k = 0
+    fields = []
+    for pc_ in pieces:
+        if isinstance(pc_, Str):
+            data = pc_.bytes()
+            cs += [ctx.S(Z(off) + i) == b for i, b in enumerate(data)]
+            off = add(off, len(data))
+        elif isinstance(pc_, Opaque) and pc_.kind == 'fmtarg':
+            k += 1
+            e = z3.Int('c08_e%d_%s%s' % (k, variant, ctx.suffix))
+            a = Z(off)
+            v = pc_.v
+            if pc_.ty == 'u16':
+                # std contract: Display for u16 is the canonical decimal (no sign, no leading zero)
+                cs += [e - a >= 1, e - a <= 5, ctx.forall_range(a, e, 'o_digit', lambda x: z3.And(x >= 48, x <= 57)),
+                       z3.Or(e - a == 1, ctx.S(a) != 48), orc.port_val(a, e) == Z(v), Z(v) >= 0, Z(v) <= 65535]
+            elif pc_.ty in ('std::net::Ipv4Addr', 'std::net::Ipv6Addr'):
+                fam = 4 if pc_.ty.endswith('Ipv4Addr') else 6
+                okf, valf = (ctx.ok4, ctx.val4) if fam == 4 else (ctx.ok6, ctx.val6)
+                # std contract: Display output is ASCII over the address alphabet, 7..15 / 2..39 bytes, and from_str(display(a)) == Ok(a)
+                lo, hi = (7, 15) if fam == 4 else (2, 39)
+                cs += [e - a >= lo, e - a <= hi, okf(a, e), valf(a, e) == v.val, models.addr_contract(ctx, fam, a, e),
+                       v.val >= 0, v.val < 2 ** (32 if fam == 4 else 128)]
+                fields.append((fam, a, e))
+            else:
+                raise Unsupported('Display argument of type ' + pc_.ty)
+            off = e
+        else:
+            raise Unsupported('formatter piece %r' % (pc_,))
+    cs.append(ctx.L == Z(off))
+    return z3.And(cs), fields
+
+
+def ob_c08_roundtrip(W, kind, idx, params):
+    """C08: for every address value V, the text T that Display produces (template decoded from the MIR, std's
+    Display of u16 / IpAddr as contract axioms) is at most 107 bytes and this entry point parses T back to V
+    with header text T."""
+    import wstate
+    ctx, paths = wstate.w_summary(kind)
+    p = paths[idx]
+    orc = Oracle(ctx)
+    out = []
+    for variant, (sym, pieces, r) in c08_pieces(W['prog']).items():
+        F, fields = c08_formatted(ctx, orc, variant, sym, pieces)
+        good = z3.BoolVal(False)
+        if p.kind() == 'Ok':
+            hdr, addrs = ok_parts(p)
+            g = []
+            if hdr is not None:
+                if hdr.buf is ctx.buf:
+                    g += [Z(hdr.start) == 0, Z(hdr.end) == ctx.L]
+                elif not (isinstance(hdr, Opaque)):
+                    g.append(z3.BoolVal(False))
+            if addrs.variant != variant:
+                g.append(z3.BoolVal(False))
+            elif variant != 'Unknown':
+                ip = addrs.fields[0]
+                g += [ip.get('source_address').val == sym['sa'], ip.get('destination_address').val == sym['da'],
+                      Z(ip.get('source_port')) == sym['sp'], Z(ip.get('destination_port')) == sym['dp']]
+            good = z3.And(g) if g else z3.BoolVal(True)
+
+        def mk(m, variant=variant, sym=sym):
+            if variant == 'Unknown':
+                spec = '0'
+            else:
+                spec = '%d %d %d %d %d' % (sym['fam'], ev(m, sym['sa']), ev(m, sym['da']), ev(m, sym['sp']), ev(m, sym['dp']))
+            return {'runs': [['v1_fmt', spec.encode().hex()]], 'violated_if': 'fmt_roundtrip',
+                    'summary': 'formatted %s value (%s) does not parse back through %s as the same value / canonical line' % (variant, spec, kind)}
+        neg = z3.And(F, z3.Or(z3.Not(good), ctx.L > 107))
+        out += decide(ctx, p.pc, neg, 'c08_roundtrip:%s:%s:%s' % (kind, variant, p.label()), mk,
+                      realize=[], roles=roles_for(W, ctx, orc), oracle_defs=orc.defs)
+    return out
+
+
+# ------------------------------------------------------------------ builder properties (Engine M half): see props_b.py
+def _builder(prog, props, label, kmax):
+    import props_b
+    return props_b.builder_modular(prog, props, kmax, label)
+
+
+def c09_builder_q(prog, lmax):
+    return _builder(prog, {'C09'}, 'c09_histories', 2)
+
+
+def c09_builder_t(prog, lmax):
+    return _builder(prog, {'C09'}, 'c09_histories', 3)
+
+
+def c10_builder_q(prog, lmax):
+    return _builder(prog, {'C10'}, 'c10_histories', 2)
+
+
+def c10_builder_t(prog, lmax):
+    return _builder(prog, {'C10'}, 'c10_histories', 3)
+
+
+def c20_builder_q(prog, lmax):
+    return _builder(prog, {'C20'}, 'c20_histories', 2)
+
+
+def c20_builder_t(prog, lmax):
+    return _builder(prog, {'C20'}, 'c20_histories', 3)
+
+
+for _pid, _q, _t in (('C09', 'c09_builder_q', 'c09_builder_t'), ('C10', 'c10_builder_q', 'c10_builder_t'), ('C20', 'c20_builder_q', 'c20_builder_t')):
+    SPECS[_pid] = {'kinds': [], 'lmax': {'quick': 0, 'thorough': 0}, 'modular': _q, 'modular_thorough': _t, 'obligations': [], 'no_v1': True}
